@@ -1,8 +1,191 @@
 import GraafVerif.Driver.Common
-/-! Driver handlers for property C14 (ops the harness module `ops/c14.rs` emits). -/
-namespace GraafVerif.Driver.H14
-open GraafVerif GraafVerif.Driver
+import GraafVerif.Driver.ReprDesc
+import GraafVerif.Model.Gen
+import GraafVerif.Spec.Gen
+/-!
+Driver handlers for property C14 (ops the harness module `ops/c14.rs` emits).
 
-def handlers : List (String × Handler) := []
+  gen_<name> <repr> <n>        name ∈ empty complete circuit cycle path star wheel
+  gen_biclique <repr> <m> <n>
+  gen_trivial|gen_claw|gen_utility <repr>
+      => [order [vertices] [arcs]] | panic
+
+Model output: the generator model of that representation (`Model/Gen.lean`; the threaded
+`AdjacencyList::complete` gets the thread count `t` the harness observed).
+Oracle: the defining arc predicate of the property text (`Spec/Gen.lean`) evaluated on the
+implementation's observation: order, vertex list `0..n`, arc SET; inadmissible ⇒ `panic`.
+-/
+namespace GraafVerif.Driver.H14
+open GraafVerif GraafVerif.Driver GraafVerif.Repr GraafVerif.Gen GraafVerif.GenSpec
+
+def panicV : List V := [V.a "panic"]
+
+def outOf {α : Type} (obs : α → V) : Option α → List V
+  | none => panicV
+  | some d => [obs d]
+
+def pairLe (a b : Nat × Nat) : Bool := a.1 < b.1 || (a.1 == b.1 && a.2 ≤ b.2)
+
+def dedupAdj : List (Nat × Nat) → List (Nat × Nat)
+  | [] => []
+  | [a] => [a]
+  | a :: b :: rest => if a == b then dedupAdj (b :: rest) else a :: dedupAdj (b :: rest)
+
+/-- the observed arcs as a canonical set -/
+def canonArcs (arcs : List (Nat × Nat)) : List (Nat × Nat) := dedupAdj (arcs.mergeSort pairLe)
+
+/-- What the property fixes for one call: `none` = must panic, `some (n, expected arcs)`. -/
+abbrev Expect := Option (Nat × List (Nat × Nat))
+
+def oracle (want : Expect) (observed : List V) : Option String :=
+  match want, observed with
+  | none, [V.a "panic"] => none
+  | none, _ => some "inadmissible-parameters-did-not-panic"
+  | some _, [V.a "panic"] => some "admissible-parameters-panicked"
+  | some (n, arcs), [V.l [o, vs, as]] =>
+    match V.nat? o, V.listOf? V.nat? vs, V.listOf? (V.pair? V.nat? V.nat?) as with
+    | some o, some vs, some as =>
+      if o ≠ n then some s!"order {o} but the definition has {n}"
+      else if vs ≠ List.range n then some "vertex list is not 0..n"
+      else
+        let got := canonArcs as
+        if got == arcs then none
+        else
+          let missing := arcs.filter (fun a => !got.contains a)
+          let extra := got.filter (fun a => !arcs.contains a)
+          some s!"arc set differs from the definition: missing {V.ofPairs (missing.take 3)} extra {V.ofPairs (extra.take 3)}"
+    | _, _, _ => some "unreadable observation"
+  | some _, _ => some "unreadable observation"
+
+/-- Specification (order, arc list) per generator; `none` = inadmissible. -/
+def expect1 (name : String) (n : Nat) : Option Expect :=
+  match name with
+  | "empty" => some (if n = 0 then none else some (n, arcsOf n (EmptyDef n)))
+  | "complete" => some (if n = 0 then none else some (n, arcsOf n (CompleteDef n)))
+  | "circuit" => some (if n = 0 then none else some (n, arcsOf n (CircuitDef n)))
+  | "cycle" => some (if n = 0 then none else some (n, arcsOf n (CycleDef n)))
+  | "path" => some (if n = 0 then none else some (n, arcsOf n (PathDef n)))
+  | "star" => some (if n = 0 then none else some (n, arcsOf n (StarDef n)))
+  | "wheel" => some (if n < 4 then none else some (n, arcsOf n (WheelDef n)))
+  | _ => none
+
+def expectBiclique (m n : Nat) : Expect :=
+  if m = 0 ∨ n = 0 then none else some (m + n, arcsOf (m + n) (BicliqueDef m n))
+
+/-- The model's output for a one-parameter generator. -/
+def model1 (t : Nat) (name repr : String) (n : Nat) : Option (List V) :=
+  match repr, name with
+  | "al", "empty" => some (outOf obsAL (AL.empty n))
+  | "al", "complete" => some (outOf obsAL (AL.complete n t))
+  | "al", "circuit" => some (outOf obsAL (AL.circuit n))
+  | "al", "cycle" => some (outOf obsAL (AL.cycle n))
+  | "al", "path" => some (outOf obsAL (AL.path n))
+  | "al", "star" => some (outOf obsAL (AL.star n))
+  | "al", "wheel" => some (outOf obsAL (AL.wheel n))
+  | "am", "empty" => some (outOf obsAM (AM.empty n))
+  | "am", "complete" => some (outOf obsAM (AM.complete n))
+  | "am", "circuit" => some (outOf obsAM (AM.circuit n))
+  | "am", "cycle" => some (outOf obsAM (AM.cycle n))
+  | "am", "path" => some (outOf obsAM (AM.path n))
+  | "am", "star" => some (outOf obsAM (AM.star n))
+  | "am", "wheel" => some (outOf obsAM (AM.wheel n))
+  | "mx", "empty" => some (outOf obsMX (MX.empty n))
+  | "mx", "complete" => some (outOf obsMX (MX.complete n))
+  | "mx", "circuit" => some (outOf obsMX (MX.circuit n))
+  | "mx", "cycle" => some (outOf obsMX (MX.cycle n))
+  | "mx", "path" => some (outOf obsMX (MX.path n))
+  | "mx", "star" => some (outOf obsMX (MX.star n))
+  | "mx", "wheel" => some (outOf obsMX (MX.wheel n))
+  | "el", "empty" => some (outOf obsEL (EL.empty n))
+  | "el", "complete" => some (outOf obsEL (EL.complete n))
+  | "el", "circuit" => some (outOf obsEL (EL.circuit n))
+  | "el", "cycle" => some (outOf obsEL (EL.cycle n))
+  | "el", "path" => some (outOf obsEL (EL.path n))
+  | "el", "star" => some (outOf obsEL (EL.star n))
+  | "el", "wheel" => some (outOf obsEL (EL.wheel n))
+  | "wu", "empty" | "wi", "empty" =>
+    some (outOf (fun g => obs g.order g.vertices g.arcs) (WL.empty n))
+  | _, _ => none
+
+def modelBiclique (repr : String) (m n : Nat) : Option (List V) :=
+  match repr with
+  | "al" => some (outOf obsAL (AL.biclique m n))
+  | "am" => some (outOf obsAM (AM.biclique m n))
+  | "mx" => some (outOf obsMX (MX.biclique m n))
+  | "el" => some (outOf obsEL (EL.biclique m n))
+  | _ => none
+
+def model0 (name repr : String) : Option (List V) :=
+  match repr, name with
+  | "al", "trivial" => some (outOf obsAL AL.trivial)
+  | "al", "claw" => some (outOf obsAL AL.claw)
+  | "al", "utility" => some (outOf obsAL AL.utility)
+  | "am", "trivial" => some (outOf obsAM AM.trivial)
+  | "am", "claw" => some (outOf obsAM AM.claw)
+  | "am", "utility" => some (outOf obsAM AM.utility)
+  | "mx", "trivial" => some (outOf obsMX MX.trivial)
+  | "mx", "claw" => some (outOf obsMX MX.claw)
+  | "mx", "utility" => some (outOf obsMX MX.utility)
+  | "el", "trivial" => some (outOf obsEL EL.trivial)
+  | "el", "claw" => some (outOf obsEL EL.claw)
+  | "el", "utility" => some (outOf obsEL EL.utility)
+  | "wu", "trivial" | "wi", "trivial" =>
+    some (outOf (fun g => obs g.order g.vertices g.arcs) WL.trivial)
+  | _, _ => none
+
+def expect0 (name : String) : Option Expect :=
+  match name with
+  | "trivial" => some (some (1, []))
+  | "claw" => some (expectBiclique 1 3)
+  | "utility" => some (expectBiclique 3 3)
+  | _ => none
+
+/-- size / word-boundary class of an order -/
+def orderTag (n : Nat) : String :=
+  if n = 0 then "n=0" else if n ≤ 8 then "n1-8" else if n ≤ 64 then "n9-64" else "n>64"
+
+/-- thread-chunking class of `AdjacencyList::complete` -/
+def chunkTag (n t : Nat) : String :=
+  if n ≤ 1 then "chunk:none"
+  else if n < t then "chunk:n<t" else if n = t then "chunk:n=t"
+  else if n % t = 0 then "chunk:multiple" else "chunk:ragged"
+
+def h1 (name : String) : Handler := fun t args observed =>
+  match args with
+  | [repr, n] => do
+    let repr ← V.atom? repr
+    let n ← V.nat? n
+    let model ← model1 t name repr n
+    let want ← expect1 name n
+    let tags := [name, repr, orderTag n, if want.isNone then "inadmissible" else "admissible"] ++
+      (if name == "complete" && repr == "al" then [chunkTag n t] else [])
+    pure (classify observed model (oracle want observed) (nt := want.isSome && n ≥ 2) tags)
+  | _ => none
+
+def hBiclique : Handler := fun _ args observed =>
+  match args with
+  | [repr, m, n] => do
+    let repr ← V.atom? repr
+    let m ← V.nat? m
+    let n ← V.nat? n
+    let model ← modelBiclique repr m n
+    let want := expectBiclique m n
+    let tags := ["biclique", repr, orderTag (m + n), if want.isNone then "inadmissible" else "admissible"]
+    pure (classify observed model (oracle want observed) (nt := want.isSome) tags)
+  | _ => none
+
+def h0 (name : String) : Handler := fun _ args observed =>
+  match args with
+  | [repr] => do
+    let repr ← V.atom? repr
+    let model ← model0 name repr
+    let want ← expect0 name
+    pure (classify observed model (oracle want observed) (nt := name != "trivial") [name, repr, "admissible"])
+  | _ => none
+
+def handlers : List (String × Handler) :=
+  (["empty", "complete", "circuit", "cycle", "path", "star", "wheel"].map (fun nm => ("gen_" ++ nm, h1 nm))) ++
+  [("gen_biclique", hBiclique)] ++
+  (["trivial", "claw", "utility"].map (fun nm => ("gen_" ++ nm, h0 nm)))
 
 end GraafVerif.Driver.H14
